@@ -108,7 +108,9 @@ def check_constructors(prog, rep, eng):
         rep.check(h in (("bin", "+", height_of(pn[0]), ("lit", 1)), ("bin", "+", ("lit", 1), height_of(pn[0]))), "C06-R2", "mk_unary/height",
                   f"{f.file}:{f.line}", "height = child.height + 1", f"height is {sem.short(h, 80)}")
         txt = field_of(st, "formula_str") if ok else None
-        check_template(rep, "mk_unary", f, txt, [op, child])
+        uvars = [(v["name"], {pn[1]: ("ctor", "preprocessing::operator_enums::UnaryOp::" + v["name"], ())})
+                 for v in prog.adts.get("preprocessing::operator_enums::UnaryOp", {}).get("variants", [])]
+        check_template(rep, "mk_unary", f, txt, [op, child], variants=uvars)
         nt = field_of(st, "node_type") if ok else None
         rep.check(nt is not None and nt[0] == "ctor" and str(nt[1]).endswith("NodeType::Unary") and nt[2] == (op, child), "C06-R3", "mk_unary/node_type",
                   f"{f.file}:{f.line}", "node_type = Unary(op, child)", f"node_type is {sem.short(nt, 100)}")
@@ -136,7 +138,9 @@ def check_constructors(prog, rep, eng):
                 good = (m[2] == a and m[3] == b) if bigger_first else (m[2] == b and m[3] == a)
         rep.check(good, "C06-R2", "mk_binary/height", f"{f.file}:{f.line}", "height = max(left.height, right.height) + 1", f"height is {sem.short(h, 120)}")
         txt = field_of(st, "formula_str") if ok else None
-        check_template(rep, "mk_binary", f, txt, [left, op, right])
+        bvars = [(v["name"], {pn[2]: ("ctor", "preprocessing::operator_enums::BinaryOp::" + v["name"], ())})
+                 for v in prog.adts.get("preprocessing::operator_enums::BinaryOp", {}).get("variants", [])]
+        check_template(rep, "mk_binary", f, txt, [left, op, right], variants=bvars)
         nt = field_of(st, "node_type") if ok else None
         rep.check(nt is not None and nt[0] == "ctor" and str(nt[1]).endswith("NodeType::Binary") and nt[2] == (op, left, right), "C06-R3",
                   "mk_binary/node_type", f"{f.file}:{f.line}", "node_type = Binary(op, left, right)", f"node_type is {sem.short(nt, 100)}")
@@ -155,82 +159,55 @@ def check_constructors(prog, rep, eng):
         rep.check(h in (("bin", "+", height_of(pn[0]), ("lit", 1)), ("bin", "+", ("lit", 1), height_of(pn[0]))), "C06-R2", "mk_hybrid/height",
                   f"{f.file}:{f.line}", "height = child.height + 1", f"height is {sem.short(h, 80)}")
         txt = field_of(st, "formula_str") if ok else None
-        fm = fmt_of(txt) if txt else None
-        good = False
-        why = "formula_str is not a format template"
-        if fm:
-            pieces = fm[1]
-            args = [p[1] for p in pieces if isinstance(p, tuple)]
-            lits = [p for p in pieces if isinstance(p, str)]
-            domseg = [a for a in args if a not in (op, var, child)]
-            order_ok = len(args) == 4 and args[0] == op and args[1] == var and args[3] == child and len(domseg) == 1
-            parens = pieces and isinstance(pieces[0], str) and pieces[0].startswith("(") and isinstance(pieces[-1], str) and pieces[-1].endswith(")")
-            braces = "".join(lits).count("{") == 1 and "".join(lits).count("}") == 1 and ":" in "".join(lits)
-            good = bool(order_ok and parens and braces)
-            why = f"template pieces: {[p if isinstance(p, str) else sem.short(p[1], 30) for p in pieces]}"
-            if good:
-                d = domseg[0]
-                # domain segment: " in %<label>%" iff a domain is present, empty otherwise; must not depend on the operator
-                dep_op = terms.mentions_param(d, pn[3])
-                has_fmt = fmt_of(d)
-                cond_ok = d[0] == "ite" and not terms.mentions_param(d[1], pn[3]) and terms.mentions_param(d[1], pn[2])
-                seg_ok = False
-                if has_fmt:
-                    sp = has_fmt[1]
-                    l2 = "".join(p for p in sp if isinstance(p, str))
-                    a2 = [p[1] for p in sp if isinstance(p, tuple)]
-                    seg_ok = l2.count("%") == 2 and " in " in l2 and len(a2) == 1 and terms.mentions_param(a2[0], pn[2])
-                good = not dep_op and cond_ok and seg_ok
-                why = f"domain segment is {sem.short(d, 160)}: it must be ` in %label%` exactly when a domain is present, for every operator"
-        rep.check(good, "C06-R3", "mk_hybrid/text", f"{f.file}:{f.line}", "text = (op{var}[ in %dom%]: child)", why)
+        import render
+        label = ("param", "#label")
+        for v in prog.adts.get("preprocessing::operator_enums::HybridOp", {}).get("variants", []):
+            for dname, dval in (("no-domain", ("ctor", "std::prelude::v1::None", ())), ("domain", ("ctor", "std::prelude::v1::Some", (label,)))):
+                opc = ("ctor", "preprocessing::operator_enums::HybridOp::" + v["name"], ())
+                mapping = {pn[3]: opc, pn[2]: dval}
+                pieces = text_pieces(txt, mapping) if txt else []
+                want = ["(", ("arg", opc), "{", ("arg", var), "}"] + ([" in %", ("arg", label), "%"] if dname == "domain" else []) + [": ", ("arg", child), ")"]
+                wshape = tuple(p if isinstance(p, str) else "{}" for p in render.merge(want))
+                wargs = [p[1] for p in want if isinstance(p, tuple)]
+                got_args = [p[1] for p in pieces if isinstance(p, tuple)]
+                rep.check(render.shape(pieces) == wshape and got_args == wargs, "C06-R3", f"mk_hybrid/text[{v['name']},{dname}]", f"{f.file}:{f.line}",
+                          "text = (op{var}[ in %label%]: child)",
+                          f"for {v['name']} with {dname} the text is {render.shape(pieces)} over {[sem.short(a, 30) for a in got_args]}; expected {wshape}: "
+                          "the domain segment must be ` in %label%` exactly when a domain is present, for every operator")
+
         nt = field_of(st, "node_type") if ok else None
         rep.check(nt is not None and nt[0] == "ctor" and str(nt[1]).endswith("NodeType::Hybrid") and nt[2] == (op, var, dom, child), "C06-R3",
                   "mk_hybrid/node_type", f"{f.file}:{f.line}", "node_type = Hybrid(op, var, domain, child)", f"node_type is {sem.short(nt, 120)}")
     rep.floor("C06-R2", 4)
-    rep.floor("C06-R3", 6)
+    rep.floor("C06-R3", 26)
 
 
-def templates_in(t):
-    """All format templates a text term can evaluate to (through ite / switch / join)."""
-    if not isinstance(t, tuple) or not t:
-        return []
-    if t[0] == "fmt":
-        return [t]
-    if t[0] == "ite":
-        return templates_in(t[2]) + templates_in(t[3])
-    if t[0] == "switch":
-        out = []
-        for _, v in t[2]:
-            out += templates_in(v)
-        return out
-    if t[0] == "join":
-        out = []
-        for x in t[1]:
-            out += templates_in(x)
-        return out
-    if t[0] == "call" and t[2]:
-        out = []
-        for a in t[2]:
-            out += templates_in(a)
-        return out
-    return []
+def text_pieces(txt, mapping):
+    import partial
+    import render
+    t = partial.simplify(terms.subst(txt, mapping))
+    return render.string_pieces(t)
 
 
-def check_template(rep, name, f, txt, components):
-    tmpls = templates_in(txt) if txt else []
-    if not tmpls:
-        rep.unresolved("C06-R3", f"{name}/text", f"{f.file}:{f.line}", "formula_str is not built from format templates")
+def check_template(rep, name, f, txt, components, variants=None, enum=None):
+    """formula_str, specialised for every operator variant, is one pair of parentheses around the components in order."""
+    import render
+    if txt is None:
+        rep.unresolved("C06-R3", f"{name}/text", f"{f.file}:{f.line}", "formula_str not found")
         return
-    for i, fm in enumerate(tmpls):
-        pieces = fm[1]
+    cases = variants or [(None, {})]
+    for vname, mapping in cases:
+        pieces = text_pieces(txt, mapping)
         args = [p[1] for p in pieces if isinstance(p, tuple)]
-        parens = pieces and isinstance(pieces[0], str) and pieces[0].startswith("(") and isinstance(pieces[-1], str) and pieces[-1].endswith(")")
+        comps = [terms.subst(c, mapping) for c in components]
         lits = "".join(p for p in pieces if isinstance(p, str))
+        parens = bool(pieces) and isinstance(pieces[0], str) and pieces[0].startswith("(") and isinstance(pieces[-1], str) and pieces[-1].endswith(")")
         one_pair = lits.count("(") == 1 and lits.count(")") == 1
-        rep.check(args == components and parens and one_pair, "C06-R3", f"{name}/text#{i}", f"{f.file}:{f.line}",
+        only_space = set(lits) <= set("() ")
+        rep.check(args == comps and parens and one_pair and only_space, "C06-R3", f"{name}/text" + (f"[{vname}]" if vname else ""), f"{f.file}:{f.line}",
                   "text = one pair of parentheses around the components in order, each once",
-                  f"template mentions {[sem.short(a, 30) for a in args]} in pieces {[p if isinstance(p, str) else '{}' for p in pieces]}; "
-                  f"expected {[sem.short(c, 30) for c in components]} once each inside one pair of parentheses")
+                  f"text pieces are {render.shape(pieces)} over {[sem.short(a, 30) for a in args]}; expected {[sem.short(c, 30) for c in comps]} once each, "
+                  "in order, inside one pair of parentheses")
 
 
 # ------------------------------------------------------------------------------------------------
@@ -238,35 +215,18 @@ def check_template(rep, name, f, txt, components):
 # ------------------------------------------------------------------------------------------------
 
 def display_table(prog, eng, enum_name):
-    """variant -> text printed by the Display impl (a literal, or the Debug name)."""
-    for q, fn in prog.fns.items():
-        if fn.path.endswith(f"{enum_name} as std::fmt::Display>::fmt"):
-            s = eng.summary(fn)
-            variants = [v["name"] for v in prog.adts.get(f"preprocessing::operator_enums::{enum_name}", {}).get("variants", [])]
-            table = {}
-            default = None
-            for st in s.sites:
-                if st.kind != "mcall" or st.name != "write_fmt":
-                    continue
-                fm = fmt_of(st.args[1])
-                if fm is None:
-                    continue
-                arm = [c for c in st.pc if c[0] == "match" and c[3]]
-                if not arm:
-                    continue
-                d = arm[-1][2]
-                if d[0] == "var":
-                    v = str(d[1]).rsplit("::", 1)[-1]
-                    table[v] = fm[1]
-                elif d[0] == "wild":
-                    default = fm[1]
-            for v in variants:
-                if v not in table and default is not None:
-                    # `c => write!(f, "{c:?}")`: the derived Debug name of a field-less variant is its name
-                    if len(default) == 1 and isinstance(default[0], tuple) and default[0][2] == "debug":
-                        table[v] = (v,)
-            return fn, table, variants
-    return None, {}, []
+    """variant -> text printed by the Display impl (partial evaluation of the impl for every field-less variant)."""
+    import render
+    fn = render.display_impl(prog, enum_name)
+    if fn is None:
+        return None, {}, []
+    variants = [v["name"] for v in prog.adts.get(f"preprocessing::operator_enums::{enum_name}", {}).get("variants", [])]
+    table = {}
+    for v in variants:
+        pieces = render.printed(prog, enum_name, ("ctor", f"preprocessing::operator_enums::{enum_name}::{v}", ()))
+        if pieces is not None:
+            table[v] = tuple(pieces)
+    return fn, table, variants
 
 
 def tokenizer_table(prog, eng):
@@ -335,14 +295,13 @@ def check_spelling(prog, rep, eng):
     if fn is None:
         rep.unresolved("C06-R4", "Atomic/Display", "", "Display impl not found")
         return
-    s = eng.summary(fn)
+    import render
     shapes = {}
-    for st in s.sites:
-        if st.kind == "mcall" and st.name == "write_fmt":
-            fm = fmt_of(st.args[1])
-            arm = [c for c in st.pc if c[0] == "match" and c[3]]
-            if fm and arm and arm[-1][2][0] == "var":
-                shapes[str(arm[-1][2][1]).rsplit("::", 1)[-1]] = tuple(p if isinstance(p, str) else "{}" for p in fm[1])
+    for v in prog.adts.get("preprocessing::operator_enums::Atomic", {}).get("variants", []):
+        arg = (("param", "#name"),) if v["fields"] else ()
+        pieces = render.printed(prog, "Atomic", ("ctor", "preprocessing::operator_enums::Atomic::" + v["name"], arg))
+        if pieces is not None and all(isinstance(p, str) or p[1] == ("param", "#name") for p in pieces):
+            shapes[v["name"]] = render.shape(pieces)
     want = {"Var": ("{", "{}", "}"), "Prop": ("{}",), "True": ("True",), "False": ("False",), "WildCardProp": ("%", "{}", "%")}
     for v, w in want.items():
         rep.check(shapes.get(v) == w, "C06-R4", f"Atomic::{v}", f"{fn.file}:{fn.line}", f"prints as {''.join(w)}",
